@@ -51,7 +51,9 @@ def run_unchecked(el, ops):
     for i, op in enumerate(ops):
         k = op[0]
         if k in ('add', 'add_fwd'):
-            c = stub(op[1])
+            # op[-1] == 'checked': a CHECKED, usually incomplete, child - the unchecked parent must neither refuse
+            # it nor be stopped by it when it is serialised
+            c = fresh(op[1], True, False) if op[-1] == 'checked' else stub(op[1])
             r = call(e.add_child, c) if k == 'add' else call(e.add_child, c, op[2])
             if r.ok:
                 model.append(c)
@@ -280,7 +282,7 @@ def run_shard(ctx, shard, acc):
                 nm = data.draw(st.sampled_from(own)) if (own and data.draw(st.integers(0, 1))) \
                     else data.draw(st.sampled_from(names))
                 if k == 'add':
-                    ops.append(['add', nm])
+                    ops.append(['add', nm, 'checked'] if data.draw(st.integers(0, 3)) == 0 else ['add', nm])
                 elif k == 'add_fwd':
                     ops.append(['add_fwd', nm, data.draw(st.integers(0, 3))])
                 elif k == 'remove':
@@ -292,6 +294,7 @@ def run_shard(ctx, shard, acc):
                         ops.append([k, data.draw(st.sampled_from(own))])
                 else:
                     ops.append(['to_string', data.draw(st.integers(0, 1))])
+            ops.append(['to_string', 1])
             ops.append(['to_string', 0])
             f, rejected = run_unchecked(el, ops)
             acc.case({'mode': 'unchecked', 'element': el, 'ops': ops}, rejected, len(ops))
